@@ -20,7 +20,25 @@ import (
 // Backends lists the metastore implementations a world can sit on: the in-memory store, the two DynamoDB plug-ins
 // over the semantic DynamoDB fake (without and with their region-suffix option), and the SQL metastore over the
 // mini SQL engine.
-var Backends = []string{"memory", "dynamodb-v1", "dynamodb-v2", "sql", "dynamodb-v1-suffix", "dynamodb-v2-suffix"}
+var Backends = []string{"memory", "dynamodb-v1", "dynamodb-v2", "sql", "dynamodb-v1-suffix", "dynamodb-v2-suffix", "dynamodb-v1w-v2r", "dynamodb-v2w-v1r"}
+
+// mixedFleet is one table used through both DynamoDB plug-ins at once, the way a fleet in the middle of a migration
+// from the v1 to the v2 plug-in uses it: writes go through one plug-in, reads through the other.
+type mixedFleet struct {
+	writer, reader appencryption.Metastore
+}
+
+func (m mixedFleet) Load(ctx context.Context, id string, created int64) (*appencryption.EnvelopeKeyRecord, error) {
+	return m.reader.Load(ctx, id, created)
+}
+
+func (m mixedFleet) LoadLatest(ctx context.Context, id string) (*appencryption.EnvelopeKeyRecord, error) {
+	return m.reader.LoadLatest(ctx, id)
+}
+
+func (m mixedFleet) Store(ctx context.Context, id string, created int64, ekr *appencryption.EnvelopeKeyRecord) (bool, error) {
+	return m.writer.Store(ctx, id, created, ekr)
+}
 
 var v1sess = awssession.Must(awssession.NewSession(aws.NewConfig().WithRegion("us-west-2")))
 
@@ -107,6 +125,18 @@ func NewOn(secretImpl, backend string) *World {
 		}
 		w.plug = &plug{backend, ms, t.SetRevoked, nil, t, nil}
 		w.Suffix = ms.GetRegionSuffix()
+	case "dynamodb-v1w-v2r", "dynamodb-v2w-v1r":
+		t := ddb.NewTable("EncryptionKey")
+		m1 := v1p.NewDynamoDBMetastore(v1sess, v1p.WithClient(ddb.V1{T: t}))
+		m2, err := v2m.NewDynamoDB(v2m.WithDynamoDBClient(ddb.V2{T: t}))
+		if err != nil {
+			panic(err)
+		}
+		mf := mixedFleet{writer: m1, reader: m2}
+		if backend == "dynamodb-v2w-v1r" {
+			mf = mixedFleet{writer: m2, reader: m1}
+		}
+		w.plug = &plug{backend, mf, t.SetRevoked, nil, t, nil}
 	case "sql":
 		// the SQL metastore over the mini SQL engine behind database/sql (MySQL placeholder dialect)
 		db, h := sqlmini.Open(sqlmini.MySQL)
